@@ -147,6 +147,20 @@ def run(ctx):
     else:
         chk.bad(R2, sb.qualname, '_sqlite_backup', 'the index dump no longer uses sqlite3.Connection.backup between two connections', where=f'{sb.module.relpath}:{sb.lineno}')
 
+    # the dump must keep its own fresh modification time: rsync's quick check (size + mtime) against --link-dest would otherwise
+    # hard-link the *previous* backup's index when the page-rounded size happens to be equal
+    stampers = []
+    for f in (sb, fn):
+        for n in walk_local(f.node):
+            if isinstance(n, ast.Call) and norm(n.func) in ('shutil.copystat', 'os.utime', 'shutil.copy2', 'shutil.copymode', 'os.chmod'):
+                stampers.append((f, n))
+    if stampers:
+        for f, n in stampers:
+            chk.bad(R2, f.qualname, norm(n), 'the timestamps/metadata of the live index are copied onto the dump: with --link-dest rsync\'s size+mtime quick check can then hard-link the '
+                    'stale index of the previous backup instead of transferring the new dump', where=f'{f.module.relpath}:{n.lineno}')
+    else:
+        chk.ok(R2, sb.qualname, 'dump metadata', detail='no utime/copystat on the dump: it carries a fresh mtime', nontrivial=False)
+
     # ---------------------------------------------------------------- R3
     rest = m.seen.get('rest')
     if rest is not None:
